@@ -67,7 +67,7 @@ Print Assumptions C05_followed.
 Theorem C05_state : forall f keys start len j row,
   nth_error (firstn len (skipn start (f_rows f))) j = Some row ->
   match firstn len (skipn start (f_rows f)) with
-  | r0 :: _ => agrees (f_cols f) keys (state_at (boundaries f keys start len) (group_values (f_cols f) keys r0) j) row
+  | r0 :: _ => agrees (f_cols f) keys (state_at keys (boundaries f keys start len) (group_values (f_cols f) keys r0) j) row
   | [] => True
   end.
 Proof. exact page_state_invariant. Qed.
